@@ -519,3 +519,65 @@ def eval_test(expr: ast.AST, env: dict):
         return bool(v)
 
     return truth(ev(expr))
+
+
+# ----------------------------------------------------------------------------- tiny concrete evaluator
+
+
+def ceval(expr: ast.AST, env: dict):
+    """Evaluate an expression over a concrete environment keyed by *source text* of
+    sub-expressions (``env["len(binning)"] = 5``, ``env["binning.closed"] = "right"``).
+    StrEnum members ``X.right`` evaluate to "right".  Raises Unknown on anything else."""
+    import operator as op
+
+    txt = unparse(expr)
+    if txt in env:
+        return env[txt]
+    if isinstance(expr, ast.Constant):
+        return expr.value
+    if isinstance(expr, ast.Name):
+        raise Unknown(expr.id)
+    if isinstance(expr, ast.Attribute):
+        d = dotted(expr) or ""
+        head = d.split(".")[0]
+        if head[:1].isupper() and "." in d and d.count(".") == 1:  # Enum member, e.g. Closed.right
+            return expr.attr
+        raise Unknown(txt)
+    if isinstance(expr, ast.UnaryOp):
+        v = ceval(expr.operand, env)
+        if isinstance(expr.op, ast.Not):
+            return not v
+        if isinstance(expr.op, ast.USub):
+            return -v
+        if isinstance(expr.op, ast.Invert):
+            return (not v) if isinstance(v, bool) else ~v
+        raise Unknown("unary")
+    if isinstance(expr, ast.BoolOp):
+        vals = [ceval(v, env) for v in expr.values]
+        return all(vals) if isinstance(expr.op, ast.And) else any(vals)
+    if isinstance(expr, ast.BinOp):
+        a, b = ceval(expr.left, env), ceval(expr.right, env)
+        table = {ast.Add: op.add, ast.Sub: op.sub, ast.Mult: op.mul, ast.BitAnd: op.and_, ast.BitOr: op.or_, ast.FloorDiv: op.floordiv, ast.Mod: op.mod}
+        for k, f in table.items():
+            if isinstance(expr.op, k):
+                return f(a, b)
+        raise Unknown("binop")
+    if isinstance(expr, ast.Compare):
+        left = ceval(expr.left, env)
+        for o, c in zip(expr.ops, expr.comparators):
+            right = ceval(c, env)
+            table = {ast.Lt: op.lt, ast.LtE: op.le, ast.Gt: op.gt, ast.GtE: op.ge, ast.Eq: op.eq, ast.NotEq: op.ne, ast.Is: op.is_, ast.IsNot: op.is_not}
+            for k, f in table.items():
+                if isinstance(o, k):
+                    if not f(left, right):
+                        return False
+                    break
+            else:
+                raise Unknown("cmpop")
+            left = right
+        return True
+    if isinstance(expr, ast.IfExp):
+        return ceval(expr.body, env) if ceval(expr.test, env) else ceval(expr.orelse, env)
+    if isinstance(expr, ast.Call) and isinstance(expr.func, ast.Name) and expr.func.id in ("bool", "int", "str") and len(expr.args) == 1:
+        return {"bool": bool, "int": int, "str": str}[expr.func.id](ceval(expr.args[0], env))
+    raise Unknown(txt)
